@@ -167,13 +167,19 @@ def main(ctx):
     # history-driven sampler first: raises identically in every twin (checked once per class)
     for c in ("BestBatch", "CORS", "XGBoost", "RandomForest", "GaussianProcess"):
         cfgs.append({"lineup": [{"cls": c, "bs": 2}], "seed": S, "dims": 2, "model": "gauss2", "ensemble": 1, "loss": "minkowski", "batches": 1})
+    # a model whose run time depends on the parameter: with n_jobs > 1 workers complete out of submission order
+    uneven = []
+    for lu in ([{"cls": "Halton", "bs": 3}], [{"cls": "RandomUniform", "bs": 3}, {"cls": "BestBatch", "bs": 2}], [{"cls": "RSequence", "bs": 4}]):
+        uneven.append({"lineup": lu, "seed": S, "dims": 2, "model": "slow_uneven2", "ensemble": 2, "loss": "minkowski", "batches": 2 * len(lu)})
     singles = [[d] for d in DEVIATIONS]
     pairs = [list(p) for p in itertools.combinations(DEVIATIONS, 2) if not (p[0].startswith("jobs") and p[1].startswith("jobs")) and not (p[0].startswith("ctor") and p[1].startswith("ctor"))]
     cells = []
     chunk = 4
     for i in range(0, len(cfgs), chunk):
         cells.append({"cfgs": cfgs[i:i + chunk], "dev_sets": singles if ctx.quick else singles + pairs})
-    ctx.bounds = {"configurations": len(cfgs), "lineups": len(lus), "seeds": seeds, "losses": losses, "deviations": DEVIATIONS, "pairs_of_deviations": 0 if ctx.quick else len(pairs),
+    for c in uneven:
+        cells.append({"cfgs": [c], "dev_sets": [["jobs2"], ["jobs4"], ["jobs2", "folder"]]})
+    ctx.bounds = {"configurations": len(cfgs) + len(uneven), "lineups": len(lus), "seeds": seeds, "losses": losses, "deviations": DEVIATIONS, "pairs_of_deviations": 0 if ctx.quick else len(pairs),
                   "rl": "eps {0,.3}, single session of 4 batches", "batches": "2 x len(line-up)" + ("" if ctx.quick else " + 1")}
     ctx.rule = "baseline + every single deviation (thorough: every pair) per configuration; evaluations = runs; non-trivial = deviation runs compared with their baseline; states = configurations"
     ctx.assumptions = ["joblib/loky returns results in submission order; completion order of workers is not enumerated", "bit-exact comparison of the five history arrays and of the return value"]
